@@ -224,6 +224,17 @@ class ConnectingState(BaseState):
         self.protocol.handleCONNACK(response)
 
 # ---------------------------------------
+# Disconnecting State Class
+# ---------------------------------------
+
+class DisconnectingState(BaseState):
+    '''
+    DISCONNECT has been sent and the transport asked to close: no operation is
+    allowed and no packet is expected until the connection is reported lost.
+    '''
+    pass
+
+# ---------------------------------------
 # Connected State Class
 # ---------------------------------------
 
@@ -284,6 +295,7 @@ class MQTTBaseProtocol(Protocol):
         self.IDLE        = IdleState(self)
         self.CONNECTING  = ConnectingState(self)
         self.CONNECTED   = ConnectedState(self)
+        self.DISCONNECTING = DisconnectingState(self)
         self.state       = self.IDLE
         self.factory     = factory
         self._initialT   = self.TIMEOUT_INITIAL # Initial timeout for retransmissions
@@ -512,14 +524,7 @@ class MQTTBaseProtocol(Protocol):
 
     def connectionLost(self, reason):
         log.debug("--- Connection to MQTT Broker lost")
-        if self._pingReq.timer:
-            self._pingReq.timer.stop()
-            self._pingReq.timer = None
-        if self._pingReq.alarm:
-            # the connection may be going down because this very alarm has just fired
-            if self._pingReq.alarm.active():
-                self._pingReq.alarm.cancel()
-            self._pingReq.alarm = None
+        self._stopKeepalive()
         self.doConnectionLost(reason)
         self.state = self.IDLE
         # The disconnect callback is invoked in another reactor loop cycle
@@ -671,7 +676,13 @@ class MQTTBaseProtocol(Protocol):
         Performs the actual work of disconnecting
         '''
         log.debug("==> {packet:7}",packet="DISCONNECT")
+        # After sending DISCONNECT the client must not send any more packets
+        # on this connection [MQTT-3.14.4-2], so keepalive and retransmissions 
+        # stop now and not when the transport finally reports the loss.
+        self._stopKeepalive()
+        self._cancelAlarms()
         self.transport.write(request.encode())
+        self.state = self.DISCONNECTING
         self.transport.loseConnection()
 
     # ------------------------------------------------------------------------
@@ -729,6 +740,29 @@ class MQTTBaseProtocol(Protocol):
         To be subclassed
         '''
         pass
+
+    # ------------------------------------------------------------------------
+
+    def _cancelAlarms(self):
+        '''
+        Cancels the retransmission alarms of pending requests. To be subclassed
+        '''
+        pass
+
+    # ------------------------------------------------------------------------
+
+    def _stopKeepalive(self):
+        '''
+        Stops sending PINGREQ packets and waiting for PINGRESP
+        '''
+        if self._pingReq.timer:
+            self._pingReq.timer.stop()
+            self._pingReq.timer = None
+        if self._pingReq.alarm:
+            # the connection may be going down because this very alarm has just fired
+            if self._pingReq.alarm.active():
+                self._pingReq.alarm.cancel()
+            self._pingReq.alarm = None
 
     # --------------
     # Helper methods
